@@ -135,6 +135,12 @@ func c07convert(class string, serial uint32, src [][]byte) (per []string, recs [
 	return
 }
 
+func c07sortedToks(s string) string {
+	t := strings.Split(s, ",")
+	sort.Strings(t)
+	return strings.Join(t, ",")
+}
+
 // ---------------------------------------------------------------------------------------------
 // canonical result
 
@@ -366,7 +372,8 @@ func c07run(line string) (string, string) {
 			return "stale", fmt.Sprintf("FAIL:stale-line-%d", i)
 		}
 	}
-	if c07pairs(extra) != f[7] {
+	// (the accumulator marshals its per-map tables from concurrent goroutines: compare as multisets)
+	if c07sortedToks(c07pairs(extra)) != c07sortedToks(f[7]) {
 		return "stale", "FAIL:stale-extra"
 	}
 	// the data file
@@ -401,7 +408,11 @@ func c07run(line string) (string, string) {
 	rs := make([]string, len(cfgs))
 	bad := ""
 	for i, cfg := range cfgs {
+		t0 := time.Now()
 		rs[i] = c07compile(class, cfg, dataPath, timeout)
+		if os.Getenv("C07_TIMING") != "" {
+			fmt.Fprintf(os.Stderr, "%s %s %d recs: %v\n", class, cfg, len(recs), time.Since(t0))
+		}
 		if rs[i] != spec && bad == "" {
 			bad = cfg + "=" + rs[i]
 			if len(bad) > 80 {
@@ -566,7 +577,7 @@ func c07emit(w *bufio.Writer, class string, serial uint32, cfgs []string, lines 
 
 // configurations for a file whose compilation yields nRecords records (an estimate is enough: it is
 // only used to keep BatchNumParallel=0 away from the configurations that block for ever, see report)
-func c07cfgs(class string, nRecords int, big bool, rejected bool) []string {
+func c07cfgs(class string, nRecords int, big bool, rejected bool, idx int) []string {
 	if class == "cdb" {
 		if big {
 			return []string{"c1", "c8"}
@@ -576,14 +587,19 @@ func c07cfgs(class string, nRecords int, big bool, rejected bool) []string {
 	if big {
 		return []string{"B1", "B8", "B0", "b1000.4.8", "b0.1.1", "b7.4.2", "b30000.2.0"}
 	}
-	cfgs := []string{"B1", "B2", "B8", "B0"}
-	for _, size := range []int{1, 7, 1000, 0} {
-		for _, par := range []int{1, 4} {
-			for _, cpu := range []int{1, 8} {
-				cfgs = append(cfgs, fmt.Sprintf("b%d.%d.%d", size, par, cpu))
-			}
-		}
+	// every builder run allocates room for 2*10^7 entries (seconds of page faults): one or two per file
+	cfgs := []string{[]string{"B1", "B8", "B2", "B0"}[idx%4]}
+	if idx%3 == 0 {
+		cfgs = append(cfgs, []string{"B8", "B1"}[idx%2])
 	}
+	// every batch allocates 2 x DefaultBatchSize slots: BatchSize 1 / 7 only on small inputs
+	if nRecords <= 400 {
+		cfgs = append(cfgs, "b1.1.1", "b1.4.8", "b1.1.8")
+	}
+	if nRecords <= 3000 {
+		cfgs = append(cfgs, "b7.1.1", "b7.4.8", "b7.4.1")
+	}
+	cfgs = append(cfgs, "b1000.1.1", "b1000.4.8", "b1000.1.8", "b0.1.1", "b0.4.8")
 	// BatchNumParallel = 0 only where no batch ever fills up
 	if !rejected {
 		if nRecords < 1000 {
@@ -595,7 +611,7 @@ func c07cfgs(class string, nRecords int, big bool, rejected bool) []string {
 }
 
 func c07gen(g *gen, tier string, w *bufio.Writer) {
-	nSmall, bigLines := 10, 36000
+	nSmall, bigLines := 8, 36000
 	if tier == "thorough" {
 		nSmall, bigLines = 60, 75000
 	}
@@ -627,13 +643,13 @@ func c07gen(g *gen, tier string, w *bufio.Writer) {
 		}
 		lines := g.c07genFile(n, 1+g.intn(40), reject)
 		for _, class := range classes {
-			c07emit(w, class, serial+uint32(i), c07cfgs(class, count(class, lines), false, reject >= 0), lines)
+			c07emit(w, class, serial+uint32(i), c07cfgs(class, count(class, lines), false, reject >= 0, i), lines)
 		}
 	}
 	// one file large enough for the builder to split buckets; few names => many values per key,
 	// runs of equal keys across the 30000 boundary
 	lines := g.c07genFile(bigLines, 300, -1)
 	for _, class := range classes {
-		c07emit(w, class, serial+1000, c07cfgs(class, count(class, lines), true, false), lines)
+		c07emit(w, class, serial+1000, c07cfgs(class, count(class, lines), true, false, 0), lines)
 	}
 }
